@@ -375,7 +375,12 @@ func C20(c *Ctx) {
 						}
 						addr, what = x.Call.Args[0], "map write "+cn+" on"
 					default:
-						continue
+						// library routines that fill a caller-supplied buffer
+						i := fillsBufferArg(x)
+						if i < 0 || i >= len(x.Call.Args) {
+							continue
+						}
+						addr, what = x.Call.Args[i], "buffer filled by "+cn+":"
 					}
 				default:
 					continue
@@ -404,6 +409,39 @@ func C20(c *Ctx) {
 	c.registriesInitOnly()
 }
 
+// fillsBufferArg: index (in Call.Args, receiver first for static method calls)
+// of the caller-supplied buffer that a standard-library routine writes into;
+// -1 for every other call.
+func fillsBufferArg(call *ssa.Call) int {
+	cc := call.Common()
+	if cc.IsInvoke() {
+		switch cc.Method.Name() {
+		case "Read", "PutUint16", "PutUint32", "PutUint64":
+			if len(cc.Args) > 0 && strings.HasPrefix(cc.Args[0].Type().Underlying().String(), "[]") {
+				return 0
+			}
+		}
+		return -1
+	}
+	if b, ok := cc.Value.(*ssa.Builtin); ok {
+		if b.Name() == "copy" {
+			return 0
+		}
+		return -1
+	}
+	switch Callee(call) {
+	case "io.ReadFull", "io.ReadAtLeast":
+		return 1
+	case "crypto/rand.Read", "math/rand.Read", "encoding/hex.Encode", "encoding/hex.Decode":
+		return 0
+	case "(*encoding/base64.Encoding).Encode", "(*encoding/base64.Encoding).Decode", "(*encoding/base32.Encoding).Encode", "(*encoding/base32.Encoding).Decode", "(*math/rand.Rand).Read":
+		return 1
+	case "(encoding/binary.bigEndian).PutUint16", "(encoding/binary.bigEndian).PutUint32", "(encoding/binary.bigEndian).PutUint64", "(encoding/binary.littleEndian).PutUint16", "(encoding/binary.littleEndian).PutUint32", "(encoding/binary.littleEndian).PutUint64":
+		return 1
+	}
+	return -1
+}
+
 // sharedWrite returns a description when addr is rooted in shared state.
 func (c *Ctx) sharedWrite(fn *ssa.Function, addr ssa.Value) string {
 	for _, ro := range c.rootOf(addr, 0) {
@@ -422,6 +460,30 @@ func (c *Ctx) sharedWrite(fn *ssa.Function, addr ssa.Value) string {
 		case "freevar":
 			fv := ro.v.(*ssa.FreeVar)
 			par := fn.Parent()
+			// a variable handed down through several closure layers belongs to the
+			// layer that declared it
+			for cur := fn; par != nil && c.isRequestTime(par); {
+				var up *ssa.FreeVar
+				idx := -1
+				for i, x := range cur.FreeVars {
+					if x == fv {
+						idx = i
+					}
+				}
+				for _, b := range par.Blocks {
+					for _, in := range b.Instrs {
+						if mc, ok := in.(*ssa.MakeClosure); ok && mc.Fn == ssa.Value(cur) && idx >= 0 && idx < len(mc.Bindings) {
+							if pf, isFV := mc.Bindings[idx].(*ssa.FreeVar); isFV {
+								up = pf
+							}
+						}
+					}
+				}
+				if up == nil {
+					break
+				}
+				fv, cur, par = up, par, par.Parent()
+			}
 			if par != nil && !c.isRequestTime(par) {
 				// captured from wiring/init scope: shared between all requests through this closure
 				if _, isMap := derefType(fv.Type()).Underlying().(*types.Map); isMap {
@@ -430,7 +492,7 @@ func (c *Ctx) sharedWrite(fn *ssa.Function, addr ssa.Value) string {
 				if _, isSlice := derefType(fv.Type()).Underlying().(*types.Slice); isSlice {
 					return "slice " + fv.Name() + " captured from init-time scope"
 				}
-				if addr == ssa.Value(fv) {
+				if addr == ro.v {
 					return "variable " + fv.Name() + " captured from init-time scope"
 				}
 				if s := isSharedStruct(derefType(fv.Type())); s != "" {
@@ -887,6 +949,35 @@ func escapes(v ssa.Value, d int) (string, ssa.Instruction) {
 				switch f.Pkg.Pkg.Path() {
 				case "bytes", "strings", "unicode/utf8":
 					continue
+				}
+			}
+			// the generic helpers of slices/maps that only read their operand; the
+			// iterator constructors alias it (followed), the collectors consume it
+			if f, ok := x.Call.Value.(*ssa.Function); ok {
+				g := f
+				if o := f.Origin(); o != nil {
+					g = o
+				}
+				if g.Pkg != nil && g.Signature.Recv() == nil {
+					argAt := -1
+					for i, a := range x.Call.Args {
+						if a == v {
+							argAt = i
+						}
+					}
+					switch g.Pkg.Pkg.Path() + "." + g.Name() {
+					case "slices.Contains", "slices.ContainsFunc", "slices.Index", "slices.IndexFunc", "slices.Equal", "slices.EqualFunc", "slices.Compare", "slices.BinarySearch", "slices.BinarySearchFunc", "slices.Max", "slices.Min", "slices.IsSorted", "slices.Clone", "maps.Clone", "maps.Equal", "maps.EqualFunc", "slices.Collect", "slices.Sorted", "slices.SortedFunc", "maps.Collect":
+						continue
+					case "slices.AppendSeq", "maps.Insert", "maps.Copy":
+						if argAt == 1 {
+							continue
+						}
+					case "maps.Keys", "maps.Values", "maps.All", "slices.Values", "slices.All":
+						if how, at := escapes(x, d+1); how != "" {
+							return how, at
+						}
+						continue
+					}
 				}
 			}
 			return "argument of " + Callee(x), x
